@@ -1141,6 +1141,7 @@ def unpack_named_tuple(spec: ValueSpec) -> Expression:
                 type=member_type,
                 expression=member_expr,
                 could_be_none=True,
+                owner=spec.type,
                 field_ctx=(
                     spec.field_ctx
                     if is_named_tuple(member_type)
